@@ -58,7 +58,7 @@ func runBulk(cfg config, n int, bv bulkVariant, verbose bool) (v *violation, out
 	if err != nil {
 		return &violation{clause: "ENGINE", detail: err.Error()}, "", 0
 	}
-	current.Store(fmt.Sprintf("bulk %v n=%d %s", cfg, n, bv.name))
+	current.Store(running{cfg.String(), "scenario bulk", []string{fmt.Sprint(n), bv.name}})
 	progress.Add(1)
 	vtime.SetManual(true, time.Unix(t0, 0))
 	if err := env.wipe(); err != nil {
@@ -248,7 +248,7 @@ func runStorageError(cfg config, verbose bool) (v *violation, outcome string, tr
 	if err != nil {
 		return &violation{clause: "ENGINE", detail: err.Error()}, "", 0
 	}
-	current.Store(fmt.Sprintf("storage-error %v", cfg))
+	current.Store(running{cfg.String(), "scenario storage-error", nil})
 	progress.Add(1)
 	vtime.SetManual(true, time.Unix(t0, 0))
 	if err := env.wipe(); err != nil {
